@@ -39,6 +39,9 @@ pub enum Mutation {
     /// insert a whole line before line i: a two-letter field code (TRANSFAC style), or a
     /// header-like / terminator-like line of one of the formats in an odd place
     InsertLine(usize, String),
+    /// insert `kib` KiB of filler without any record separator at byte `at`: one long token, a run of numbers,
+    /// of matrix-like lines, of blanks, of text lines (kind 0..=5) - inputs far larger than any internal buffer
+    Filler(usize, u16, u8),
     /// replace everything by arbitrary bytes
     Arbitrary(Vec<u8>),
     Empty,
@@ -116,6 +119,25 @@ fn apply(mut b: Vec<u8>, m: &Mutation) -> Vec<u8> {
         }
         Mutation::Arbitrary(v) => v.clone(),
         Mutation::Empty => Vec::new(),
+        Mutation::Filler(at, kib, kind) => {
+            let unit: &[u8] = match kind % 6 {
+                0 => b"A",
+                1 => b"12 ",
+                2 => b"0 0 0 0\n",
+                3 => b" ",
+                4 => b"some text, no separator; ",
+                _ => b"x\n",
+            };
+            // (one filler per input: a second one on top of megabytes is skipped)
+            let want = if n > (3usize << 20) { 0 } else { *kib as usize * 1024 };
+            let mut fill = Vec::with_capacity(want + unit.len());
+            while fill.len() < want {
+                fill.extend_from_slice(unit);
+            }
+            let at = at % (n + 1);
+            b.splice(at..at, fill);
+            b
+        }
         Mutation::RepeatLines(i, times, two) => {
             let mut ls = lines_of(&b);
             if ls.is_empty() {
@@ -132,8 +154,10 @@ fn apply(mut b: Vec<u8>, m: &Mutation) -> Vec<u8> {
                     unit.push(b'\n');
                 }
             }
-            let mut run = Vec::with_capacity(unit.len() * *times as usize);
-            for _ in 0..*times {
+            // (at most 4 MiB of repeated lines: a unit that is itself megabytes of filler is not repeated thousands of times)
+            let times = (*times as usize).min(((4usize << 20) / unit.len().max(1)).max(1));
+            let mut run = Vec::with_capacity(unit.len() * times);
+            for _ in 0..times {
                 run.extend_from_slice(&unit);
             }
             ls.insert(i, run);
@@ -248,6 +272,7 @@ pub fn mutation_strategy() -> BoxedStrategy<Mutation> {
         2 => (any::<usize>(), any::<bool>()).prop_map(|(i, l)| Mutation::InvalidUtf8(i, l)),
         1 => proptest::collection::vec(any::<u8>(), 0..200).prop_map(Mutation::Arbitrary),
         1 => Just(Mutation::Empty),
+        1 => (any::<usize>(), prop_oneof![3 => 1u16..=70, 2 => 1020u16..=1100, 1 => 2040u16..=2100], 0u8..6).prop_map(|(at, kib, kind)| Mutation::Filler(at, kib, kind)),
     ]
     .boxed()
 }
@@ -274,7 +299,7 @@ impl Sub for Structured {
         "structured-mutations"
     }
     fn rule(&self) -> &'static str {
-        "a valid generated file (C14's writers, 1..6 records) or one of the repository's small test files, with 1..3 mutations (prefix, byte substitution / deletion / insertion, line duplication / removal / swap, one or two lines repeated 2..60 or 1000..30000 times, matrix rows renumbered from values around 2^31 / 2^32 / 2^64, ragged or longer row, header without matrix, an inserted line (any two-letter field code, or a header / terminator / matrix-like line of one of the formats in an odd place), missing final newline, invalid UTF-8, arbitrary bytes, empty), read by the reader of its own format (or, 1 in 5, another format's) under 2 generated chunkings; Reader::new and every next() must return (a panic fails; so does a call that burns 10 CPU seconds without returning) and a consumer stopping at the first Err / None must stop within len+2 calls; sweep = EVERY prefix of the repository's 8 small files and of a generated file per format, under chunk size 1 and a cursor; non-trivial = non-empty input on which the reader does not simply succeed as on the unmutated file"
+        "a valid generated file (C14's writers, 1..6 records) or one of the repository's small test files, with 1..3 mutations (prefix, byte substitution / deletion / insertion, line duplication / removal / swap, one or two lines repeated 2..60 or 1000..30000 times, matrix rows renumbered from values around 2^31 / 2^32 / 2^64, ragged or longer row, header without matrix, an inserted line (any two-letter field code, or a header / terminator / matrix-like line of one of the formats in an odd place), missing final newline, invalid UTF-8, arbitrary bytes, empty, 1..70 KiB / 1..1.07 MiB / 2..2.05 MiB of separator-free filler inserted somewhere), read by the reader of its own format (or, 1 in 5, another format's) under 2 generated chunkings; Reader::new and every next() must return - also the three further next() calls made after the first Err - (a panic fails; so does a call that burns 10 CPU seconds without returning) and a consumer stopping at the first Err / None must stop within len+2 calls; sweep = EVERY prefix of the repository's 8 small files and of a generated file per format, under chunk size 1 and a cursor; non-trivial = non-empty input on which the reader does not simply succeed as on the unmutated file"
     }
     fn cases(&self, tier: Tier) -> u64 {
         tier.pick(100_000, 3_000_000)
@@ -365,6 +390,13 @@ impl Sub for Structured {
                 Mutation::NoFinalNewline => "mut:no-final-newline",
                 Mutation::InvalidUtf8(..) => "mut:invalid-utf8",
                 Mutation::Arbitrary(_) => "mut:arbitrary",
+                Mutation::Filler(_, kib, _) => {
+                    if *kib >= 1024 {
+                        "mut:filler>=1MiB"
+                    } else {
+                        "mut:filler"
+                    }
+                }
                 Mutation::Empty => "mut:empty",
             });
         }
@@ -414,7 +446,7 @@ pub fn property() -> Property {
         assumptions: vec![
             "the whole run happens in a child process (main.rs ISOLATED): a fatal signal - e.g. the stack overflow of an unbounded recursion on a long run of lines - kills the child only; the parent then replays the cases the shards were working on, one per child process, and reports the one that dies again (signature process-died:stack-overflow / signal-N)",
             "a panic anywhere in Reader::new or Iterator::next is a failure; a call that never returns is recognised by the CPU time its thread consumes (10 CPU seconds on an input of a few KB, whose normal cost is microseconds; 3 s once one such event was seen, so that shrinking stays affordable) - CPU time of that thread, not wall-clock time, so machine load cannot cause it; a call blocked without consuming CPU ends in the global watchdog (exit 2, inconclusive)",
-            "termination is that of a consumer which stops at the first Err or None: at most len+2 calls",
+            "termination is that of a consumer which stops at the first Err or None: at most len+2 calls; after the first Err up to three more requests are made, which must return (anything) without panicking",
             "this is the structured half of C15; the byte-level half is the libFuzzer target fuzz/fuzz_targets/c15_readers.rs",
         ],
     }
